@@ -131,6 +131,8 @@ pub struct NodeAlphabet {
     pub invalid: Vec<u64>,
     pub first_shreds: Vec<u64>,
     pub windows: Vec<u64>,
+    /// certificates the adversary may aggregate at any time from the votes signed so far
+    pub forge: Vec<(CK, u64, u8)>,
 }
 
 #[derive(Clone, Debug, PartialEq, Eq, Hash)]
@@ -342,6 +344,14 @@ pub struct NodeSys {
     /// 0 = Votor consumes pool events immediately; k > 0 = up to k events may stay queued.
     pub lag: usize,
     pub max_own: usize,
+    /// With the guard on, a foreign certificate whose signer set includes the node under
+    /// test is only deliverable once the node has really cast the matching vote
+    /// (nobody can forge its signature).
+    pub honest_guard: bool,
+    /// Byzantine validator (may sign anything) for forged certificates.
+    pub byz: Option<usize>,
+    /// Votes other correct validators have cast in this world (a fixed, legitimate persona).
+    pub persona: Vec<VoteSpec>,
 }
 
 pub struct NodeWorld {
@@ -354,6 +364,7 @@ pub struct NodeWorld {
     pub blocks_delivered: Vec<bool>,
     pub invalid_delivered: Vec<bool>,
     pub fs_delivered: Vec<bool>,
+    pub forged: Vec<bool>,
     pub out_of_scope: bool,
 }
 
@@ -365,6 +376,7 @@ pub enum Act {
     FirstShred(usize),
     Timer(usize),
     Loop(usize),
+    Forge(usize),
     VotorStep,
 }
 
@@ -380,6 +392,9 @@ impl NodeSys {
             factory,
             lag,
             max_own: 40,
+            honest_guard: false,
+            byz: None,
+            persona: Vec::new(),
         }
     }
 
@@ -409,7 +424,93 @@ impl NodeSys {
         if a < self.max_own {
             return Act::Loop(a);
         }
+        a -= self.max_own;
+        if a < self.alpha.forge.len() {
+            return Act::Forge(a);
+        }
         Act::VotorStep
+    }
+
+    /// Did the node under test cast a vote of `kind` for (slot, blk)?
+    pub fn own_cast(&self, w: &NodeWorld, kind: VK, slot: u64, blk: u8) -> bool {
+        let tag = match kind { VK::Notar => 0u8, VK::NotarFb => 1, VK::Skip => 2, VK::SkipFb => 3, VK::Final => 4 };
+        w.own_msgs.iter().any(|m| match m {
+            ConsensusMessage::Vote(v) => {
+                vote_tag(v) == tag
+                    && v.slot().inner() == slot
+                    && v.block_hash().is_none_or(|h| *h == blk_hash(Blk { slot, idx: blk }))
+            }
+            _ => false,
+        })
+    }
+
+    /// Strongest certificate of the given kind formable from what has really been signed:
+    /// the Byzantine validator signs anything, the node under test only what it cast, other
+    /// correct validators only their persona votes. `None` if the threshold is not met.
+    pub fn forge_spec(&self, w: &NodeWorld, (kind, slot, blk): (CK, u64, u8)) -> Option<CertSpec> {
+        let (prim, fall) = match kind {
+            CK::Notar | CK::FastFinal => (VK::Notar, None),
+            CK::NotarFb => (VK::Notar, Some(VK::NotarFb)),
+            CK::Skip => (VK::Skip, Some(VK::SkipFb)),
+            CK::Final => (VK::Final, None),
+        };
+        let b = if matches!(kind, CK::Skip | CK::Final) { 0 } else { blk };
+        let mut s1 = 0u32;
+        let mut s2 = 0u32;
+        if let Some(z) = self.byz {
+            s1 |= 1 << z;
+        }
+        if self.own_cast(w, prim, slot, b) {
+            s1 |= 1 << self.own;
+        } else if fall.is_some_and(|f| self.own_cast(w, f, slot, b)) {
+            s2 |= 1 << self.own;
+        }
+        for p in &self.persona {
+            if p.slot == slot && (p.blk == b || !p.has_block()) {
+                if p.kind == prim && (!p.has_block() || p.blk == b) {
+                    s1 |= 1 << p.signer;
+                } else if Some(p.kind) == fall && s1 & (1 << p.signer) == 0 {
+                    s2 |= 1 << p.signer;
+                }
+            }
+        }
+        let stake: u64 = (0..self.epoch.n()).filter(|i| (s1 | s2) >> i & 1 == 1).map(|i| self.epoch.stakes[i]).sum();
+        let need = if kind == CK::FastFinal { 4 } else { 3 };
+        if !self.epoch.meets(stake, need, 5) {
+            return None;
+        }
+        Some(CertSpec { kind, slot, blk: b, s1, s2 })
+    }
+
+    /// Has the node itself cast the vote a certificate claims from it?
+    fn guard_ok(&self, w: &NodeWorld, i: usize) -> bool {
+        if !self.honest_guard {
+            return true;
+        }
+        let own_bit = 1u32 << self.own;
+        match &self.alpha.foreign[i] {
+            Op::Vote(v) => v.signer != self.own,
+            Op::Cert(c) => {
+                let cast = |tag: u8| {
+                    w.own_msgs.iter().any(|m| match m {
+                        ConsensusMessage::Vote(v) => {
+                            vote_tag(v) == tag
+                                && v.slot().inner() == c.slot
+                                && v.block_hash().is_none_or(|h| *h == blk_hash(Blk { slot: c.slot, idx: c.blk }))
+                        }
+                        _ => false,
+                    })
+                };
+                let (t1, t2) = match c.kind {
+                    CK::Notar | CK::FastFinal => (0u8, 0u8),
+                    CK::NotarFb => (0, 1),
+                    CK::Skip => (2, 3),
+                    CK::Final => (4, 4),
+                };
+                (c.s1 & own_bit == 0 || cast(t1)) && (c.s2 & own_bit == 0 || cast(t2))
+            }
+            _ => true,
+        }
     }
 
     /// Lets Votor consume queued events as the lag bound demands and feeds the monitor.
@@ -476,6 +577,7 @@ impl Sys for NodeSys {
             blocks_delivered: vec![false; self.alpha.blocks.len()],
             invalid_delivered: vec![false; self.alpha.invalid.len()],
             fs_delivered: vec![false; self.alpha.first_shreds.len()],
+            forged: vec![false; self.alpha.forge.len()],
             out_of_scope: false,
         }
     }
@@ -487,6 +589,7 @@ impl Sys for NodeSys {
             + self.alpha.first_shreds.len()
             + self.alpha.windows.len()
             + self.max_own
+            + self.alpha.forge.len()
             + 1
     }
 
@@ -495,12 +598,13 @@ impl Sys for NodeSys {
             return false;
         }
         match self.decode(action) {
-            Act::Foreign(i) => !w.foreign_delivered[i],
+            Act::Foreign(i) => !w.foreign_delivered[i] && self.guard_ok(w, i),
             Act::Block(i) => !w.blocks_delivered[i],
             Act::Invalid(i) => !w.invalid_delivered[i],
             Act::FirstShred(i) => !w.fs_delivered[i] && !w.core.first_shred.contains(&self.alpha.first_shreds[i]),
             Act::Timer(i) => w.core.timers.get(&self.alpha.windows[i]).is_some_and(|s| *s < 5),
             Act::Loop(k) => k < w.own_msgs.len() && !w.own_delivered[k],
+            Act::Forge(i) => !w.forged[i] && self.forge_spec(w, self.alpha.forge[i]).is_some(),
             Act::VotorStep => self.lag > 0 && !w.core.q.is_empty(),
         }
     }
@@ -570,6 +674,17 @@ impl Sys for NodeSys {
                 w.core.votor_step();
                 self.collect(w, &mut out);
             }
+            Act::Forge(i) => {
+                w.forged[i] = true;
+                if let Some(spec) = self.forge_spec(w, self.alpha.forge[i]) {
+                    let raw = self.factory.raw_cert(&spec);
+                    if let Some(vc) = crate::common::validate_cert_cached(&raw, &self.epoch) {
+                        let o = w.core.pool.add_cert(vc).1;
+                        self.enqueue(w, o);
+                        self.settle(w, &mut out, false);
+                    }
+                }
+            }
         }));
         if let Err(p) = r {
             let msg = p
@@ -612,6 +727,7 @@ impl Sys for NodeSys {
         w.blocks_delivered.hash(&mut h);
         w.invalid_delivered.hash(&mut h);
         w.fs_delivered.hash(&mut h);
+        w.forged.hash(&mut h);
         w.out_of_scope.hash(&mut h);
         h.finish()
     }
@@ -627,6 +743,7 @@ impl Sys for NodeSys {
             Act::FirstShred(i) => format!("FirstShred(s{})", self.alpha.first_shreds[i]),
             Act::Timer(i) => format!("next timeout of window {}", self.alpha.windows[i]),
             Act::Loop(k) => format!("deliver own broadcast #{k} back to own pool"),
+            Act::Forge(i) => format!("adversary aggregates and delivers a {:?} certificate for (s{}, b{}) from the votes signed so far", self.alpha.forge[i].0, self.alpha.forge[i].1, self.alpha.forge[i].2),
             Act::VotorStep => "votor consumes one queued pool event".into(),
         }
     }
